@@ -399,20 +399,43 @@ def rt_cases(tier):
                                         ["l", {"k": "array", "of": {"k": "prim", "t": "Unicode", "f": {}},
                                                "occ": {"min": 0, "max": 1, "nillable": True}}]]}]
         cname = draw(st.sampled_from([c["name"] for c in U["classes"]]))
+        if draw(st.integers(0, 3)) == 0:
+            # a fixed shape with sequences of objects at two depths (customer.orders[i].lines[j],
+            # customer.last.lines[j], customer.wishes[j]) - generated universes rarely nest them
+            occ1 = {"min": 0, "max": 1, "nillable": True}
+            tns = U["tns"]
+            U = {"tns": tns, "nss": [tns], "enums": [], "classes": [
+                {"name": "C0", "ns": tns, "extends": None, "fields": [
+                    ["sku", {"k": "prim", "t": "Unicode", "f": {}, "occ": dict(occ1)}],
+                    ["qty", {"k": "prim", "t": "Integer", "f": {}, "occ": dict(occ1)}]]},
+                {"name": "C1", "ns": tns, "extends": None, "fields": [
+                    ["ref", {"k": "prim", "t": "Unicode", "f": {}, "occ": dict(occ1)}],
+                    ["lines", {"k": "array", "of": {"k": "ref", "n": "C0"}, "occ": dict(occ1)}]]},
+                {"name": "C2", "ns": tns, "extends": None, "fields": [
+                    ["name", {"k": "prim", "t": "Unicode", "f": {}, "occ": dict(occ1)}],
+                    ["last", {"k": "ref", "n": "C1", "occ": dict(occ1)}],
+                    ["orders", {"k": "array", "of": {"k": "ref", "n": "C1"}, "occ": dict(occ1)}],
+                    ["wishes", {"k": "ref", "n": "C0",
+                                "occ": {"min": 0, "max": "unbounded", "nillable": True}}]]}]}
+            cname = "C2"
         t = {"k": "ref", "n": cname}
         vg = values.ValueGen(U, special_floats=False)
         vg.nil_unspellable = True
         v = draw(vg.single(t).filter(lambda v: _no_leafless_elements(U, t, v)))
-        if draw(st.integers(0, 2)) == 0:
+        emptied = False
+        if draw(st.booleans()):
             # sequences of objects below the top level made EMPTY: the flat form has a marker
             # for them ('path=empty'), they must come back as empty sequences
             v2 = _empty_nested_objseqs(U, cname, v)
             if v2 != v and _no_leafless_elements(U, t, v2):
                 v = v2
+                emptied = True
         names = set()
         for c in U["classes"]:
             names.update(f for f, _ in c["fields"])
         delims = [d for d in DELIMS if not any(d in n for n in names)]
+        if emptied and any(d != "." for d in delims):
+            delims = [d for d in delims if d != "."]      # the marker key is spelled with the delimiter
         return {"part": "rt", "U": U, "cls": cname, "v": v, "delim": draw(st.sampled_from(delims))}
     return one()
 
